@@ -59,6 +59,20 @@ type fctx struct {
 	callerFn   *fctx
 	callPt     *Point
 	callerNLoc int // locals in scope in the caller at the call (-1: unknown)
+	// entered by `return f(...)` from tailOf's function: that frame is lost, level 2 is the
+	// "(tail call)" pseudo frame
+	tailOf     *fctx
+	underPcall bool
+}
+
+// tailBase: the function that started the sequence of tail calls ending here, and how many
+// frames were lost on the way.
+func (fx *fctx) tailBase() (*fctx, int) {
+	b, d := fx, 0
+	for b.tailOf != nil {
+		b, d = b.tailOf, d+1
+	}
+	return b, d
 }
 
 func (fx *fctx) push() { fx.scopes = append(fx.scopes, nil) }
@@ -632,6 +646,30 @@ func (g *gen) observeFrame(fx *fctx, at *Point, siteOf func() *Expr) {
 		g.defLines(caller, at.ID, 2)
 		g.scopes = append(g.scopes, scopeObs{caller, fx.callPt.ID, at.ID, 2})
 	}
+	if fx.tailOf != nil {
+		// level 2 is the (tail call) pseudo frame: no lines, no variables
+		zero := func() int { return 0 }
+		for _, k := range []string{"cur", "ldef", "llast"} {
+			g.lines = append(g.lines, lineObs{"none", zero, zero, obsSrc{k, 0, at.ID, 2}, k + "/tail"})
+		}
+		// the first real frame below the lost ones: the statement that called the function which
+		// started the sequence of tail calls
+		if base, d := fx.tailBase(); !base.underPcall {
+			g.lines = append(g.lines, lineObs{"range", func() int { return base.callSite.First }, func() int { return base.callSite.Anchor },
+				obsSrc{"cur", 0, at.ID, d + 2}, "currentline/below-tail"})
+		}
+	}
+}
+
+// extraLevel: the level of the first real frame below the frames lost to tail calls (0: none).
+func (fx *fctx) extraLevel() int {
+	if fx.tailOf == nil {
+		return 0
+	}
+	if base, d := fx.tailBase(); !base.underPcall {
+		return d + 2
+	}
+	return 0
 }
 
 // defLines: linedefined / lastlinedefined of the function at that level (skipped for the main
@@ -647,6 +685,9 @@ func (g *gen) queryAction(fx *fctx, kind string, depth int) []*Stmt {
 	switch kind {
 	case "q":
 		e = call(name("Q"), num(p.ID))
+		if x := fx.extraLevel(); x > 0 {
+			e.Args = append(e.Args, num(x))
+		}
 		e.Pt = p
 		g.observeFrame(fx, p, func() *Expr { return e })
 	case "qs":
@@ -717,7 +758,7 @@ func (g *gen) faultAction(fx *fctx, kind string, scen int, depth int) []*Stmt {
 	noConcat := false
 	isCall := false
 	what := kind
-	if kind == "error2" && fx.callSite == nil {
+	if kind == "error2" && fx.callSite == nil && fx.tailOf == nil {
 		kind, what = "error", "error"
 	}
 	N := func() *Expr { return g.nilOperand(fx, &pre) }
@@ -876,7 +917,12 @@ func (g *gen) faultAction(fx *fctx, kind string, scen int, depth int) []*Stmt {
 	nd := node
 	spec := func() int { return nd.First }
 	impl := func() int { return nd.Anchor }
-	if kind == "error2" { // level 2: the calling statement in the calling Lua function
+	mode := "range"
+	if kind == "error2" && fx.tailOf != nil { // level 2 is the (tail call) pseudo frame: no position
+		mode, what = "none", "error2/tail"
+		spec = func() int { return 0 }
+		impl = spec
+	} else if kind == "error2" { // level 2: the calling statement in the calling Lua function
 		cs := fx.callSite
 		spec = func() int { return cs.First }
 		impl = func() int { return cs.Anchor }
@@ -928,7 +974,7 @@ func (g *gen) faultAction(fx *fctx, kind string, scen int, depth int) []*Stmt {
 		}
 		out = g.shape(fx, place, isCall, true, noConcat, depth)
 	}
-	g.lines = append(g.lines, lineObs{"range", spec, impl, obsSrc{"err", scen, 0, 0}, "err:" + what})
+	g.lines = append(g.lines, lineObs{mode, spec, impl, obsSrc{"err", scen, 0, 0}, "err:" + what})
 	return append(pre, out...)
 }
 
@@ -946,12 +992,13 @@ type callee struct {
 	mk    func(c2 *fctx) *Expr // the expression that enters it (placed once, by the caller c2)
 	res   func(c2 *fctx)       // resolves the names the expression mentions: call where it stands in the source
 	store bool                 // the expression is the left side of an assignment (__newindex)
+	tail  bool                 // entered by `return <expr>` (a tail call)
 	fn    *Func
 }
 
 // defineChain generates, in the current block of fx, the definition of chain function i
 // (and, before it in fx or nested in it, of the function it calls). nested: fx is the caller.
-func (g *gen) defineChain(fx *fctx, pl chainPlan, i int, underPcall, nested bool) (defs []*Stmt, ce callee) {
+func (g *gen) defineChain(fx *fctx, pl chainPlan, i int, underPcall, nested bool, tailOf *fctx) (defs []*Stmt, ce callee) {
 	kind := bindKinds[g.r.Pick(20, 12, 6, 6, 8, 6, 10, 3, 3, 3, 2, 2, 2, 2, 2, 0)]
 	isMM := len(kind) > 3 && kind[:3] == "mm_"
 	if underPcall {
@@ -962,10 +1009,19 @@ func (g *gen) defineChain(fx *fctx, pl chainPlan, i int, underPcall, nested bool
 			kind = "inline"
 		}
 	}
+	if tailOf != nil && (isMM || kind == "inline") { // `return f(...)`: a plain call
+		kind, isMM = "localfunc", false
+	}
 	f := &Func{ID: g.fn()}
 	ce.fn = f
-	cx := &fctx{fn: f, parent: fx, callerNLoc: -1}
-	if nested && !underPcall {
+	ce.tail = tailOf != nil
+	cx := &fctx{fn: f, parent: fx, callerNLoc: -1, tailOf: tailOf, underPcall: underPcall}
+	tailNext := i < pl.n && g.r.Chance(30) // this function ends with `return next(...)`
+	var nextTailOf *fctx
+	if tailNext {
+		nextTailOf = cx
+	}
+	if nested && !underPcall && tailOf == nil {
 		cx.callerNLoc = fx.nlocals() // lower bound: these stay in scope until the call
 	}
 	cx.push()
@@ -1007,7 +1063,7 @@ func (g *gen) defineChain(fx *fctx, pl chainPlan, i int, underPcall, nested bool
 	// the function this one calls: defined before it in fx, or nested in its body
 	var next *callee
 	if i < pl.n && g.r.Chance(45) {
-		pre, c := g.defineChain(fx, pl, i+1, false, false)
+		pre, c := g.defineChain(fx, pl, i+1, false, false, nextTailOf)
 		defs = append(defs, pre...)
 		next = &c
 	}
@@ -1020,9 +1076,9 @@ func (g *gen) defineChain(fx *fctx, pl chainPlan, i int, underPcall, nested bool
 			if next != nil {
 				return nil, *next
 			}
-			return g.defineChain(c2, pl, i+1, false, true)
+			return g.defineChain(c2, pl, i+1, false, true, nextTailOf)
 		}})
-		if pl.fault == "" { // reached only when the chain returns
+		if pl.fault == "" && !tailNext { // reached only when the chain returns here
 			for k := g.r.Pick(5, 3, 1); k > 0; k-- {
 				acts = append(acts, action{K: "q"})
 			}
@@ -1062,7 +1118,9 @@ func (g *gen) defineChain(fx *fctx, pl chainPlan, i int, underPcall, nested bool
 		if !underPcall {
 			p := g.pt("chain")
 			e.Pt = p
-			cx.callSite, cx.callPt = e, p
+			if tailOf == nil { // after a tail call the caller's frame no longer exists
+				cx.callSite, cx.callPt = e, p
+			}
 		}
 	}
 	ce.mk = func(c2 *fctx) *Expr { cx.callerFn = c2; return callExpr }
@@ -1162,7 +1220,12 @@ func (g *gen) chainAction(fx *fctx, a action, depth int) []*Stmt {
 		}
 	}
 	var out []*Stmt
-	if ce.store {
+	if ce.tail {
+		g.placed()
+		g.size++
+		g.classes["tailcall"] = true
+		out = []*Stmt{{K: "do", Body: []*Stmt{{K: "return", Exprs: []*Expr{e}}}}}
+	} else if ce.store {
 		g.placed()
 		g.size++
 		out = []*Stmt{{K: "assign", Lhs: []*Expr{e}, Exprs: []*Expr{num(1)}}}
@@ -1183,7 +1246,7 @@ func (g *gen) scenario(fx *fctx, depth int) []*Stmt {
 	if g.r.Chance(88) {
 		pl.fault = faultKinds[g.r.Intn(len(faultKinds))]
 	}
-	defs, ce := g.defineChain(fx, pl, 1, true, false)
+	defs, ce := g.defineChain(fx, pl, 1, true, false, nil)
 	e := ce.mk(fx)
 	if ce.res != nil {
 		ce.res(fx)
@@ -1323,7 +1386,7 @@ func genProgram(r *lib.Rand) *Generated {
 			// a chain entered directly from the main chunk, returning normally
 			pl := chainPlan{n: 1 + r.Pick(5, 4, 1)}
 			acts = append(acts, action{K: "chain", Next: func(c2 *fctx) ([]*Stmt, callee) {
-				return g.defineChain(c2, pl, 1, false, true)
+				return g.defineChain(c2, pl, 1, false, true, nil)
 			}})
 		} else {
 			acts = append(acts, action{K: "scen"})
